@@ -88,7 +88,7 @@ Section Generic.
     ss_finish (get_stream k i) = (res, s') -> I (with_stream k i (fun _ => s')) m.
   Hypothesis I_reset : forall k m i code app, I k m -> i < n ->
     I (with_stream k i (fun s => ss_reset s code app)) m.
-  Hypothesis I_tx : forall k m t cap c md k' fs, I k m -> t < n + 1 -> c < 4 -> cap < 65536 ->
+  Hypothesis I_tx : forall k m t cap c md k' fs, I k m -> t < n + 1 -> c < 4 -> cap < cap_bound ->
     conn_transmit salt k t cap c md = (k', fs) ->
     exists m', chk_frames (chk salt n) n m fs = Some m' /\ I k' m'.
   Hypothesis I_ack : forall k m lo hi, I k m -> I (conn_ack k lo hi) m.
@@ -137,10 +137,10 @@ Section Generic.
     - (* transmit *)
       unfold step, wstep. destruct (nx r) as [a r1]. destruct (nx r1) as [b r2].
       destruct (nx r2) as [c r3]. destruct (nx r3) as [d r4].
-      destruct (conn_transmit salt k (zN a mod (n + 1)) (zN b mod 65536) (zN c mod 4) (zN d mod 4)) as [k' fs] eqn:Et.
+      destruct (conn_transmit salt k (zN a mod (n + 1)) (zN b mod cap_bound) (zN c mod 4) (zN d mod 4)) as [k' fs] eqn:Et.
       assert (Ht : zN a mod (n + 1) < n + 1) by (apply N.mod_lt; lia).
       assert (Hc : zN c mod 4 < 4) by (apply N.mod_lt; lia).
-      assert (Hcap : zN b mod 65536 < 65536) by (apply N.mod_lt; lia).
+      assert (Hcap : zN b mod cap_bound < cap_bound) by (apply N.mod_lt; discriminate).
       destruct (I_tx _ _ _ _ _ _ _ _ HI Ht Hc Hcap Et) as [m' [Hchk HI']].
       unfold render_frames. cbn [app]. rewrite <- ?app_assoc.
       replace ((0 <=? Z.of_nat (length fs)) &&
@@ -532,7 +532,7 @@ Theorem tx_interval_frame : forall salt s c p lo hi h s' c' p',
   /\ c_total c' = c_total c /\ f_acq (s_fc s') + c_avail c' = f_acq (s_fc s) + c_avail c
   /\ f_maxsd (s_fc s') = f_maxsd (s_fc s) /\ f_acq (s_fc s) <= f_acq (s_fc s').
 Proof.
-  intros salt s c p lo hi h s' c' p' H. unfold tx_interval in H. cbv zeta in H.
+  intros salt s c p lo hi h s' c' p' H. unfold tx_interval, transmit_capacity_clamp in H. cbv zeta in H.
   match type of H with context [if ?b then _ else _] => destruct b eqn:E0; [discriminate|] end.
   match type of H with context [sfc_acquire c (s_fc s) ?e] =>
     set (hi1 := e) in *; destruct (sfc_acquire c (s_fc s) hi1) as [[c1 f1] w] eqn:Ea end.
@@ -617,7 +617,7 @@ Section C03tx.
     end.
   Proof.
     intros pre post m0 s c p lo hi r s' c' p' [m [HG HA]] Hrem H.
-    unfold tx_interval in H. cbv zeta in H.
+    unfold tx_interval, transmit_capacity_clamp in H. cbv zeta in H.
     match type of H with context [if ?b then _ else _] => destruct b eqn:E0 end.
     { injection H as <- <- <- <-. repeat split; auto; try lia. exists m; auto. }
     match type of H with context [sfc_acquire c (s_fc s) ?e] =>
@@ -938,11 +938,12 @@ Section C03tx.
   Qed.
 
   Lemma conn_transmit_ok : forall k m t cap cons md k' fs,
-    INV03 n k m -> cap < 65536 ->
+    INV03 n k m -> cap < cap_bound ->
     conn_transmit salt k t cap cons md = (k', fs) ->
     exists m', chk_frames (chk03 salt n) n m fs = Some m' /\ INV03 n k' m'.
   Proof.
-    intros k m t cap cons md k' fs (I1 & I2 & I3 & I4) Hcap H. unfold conn_transmit in H. cbv zeta in H.
+    intros k m t cap cons md k' fs (I1 & I2 & I3 & I4) Hcap H. unfold cap_bound, transmit_capacity_clamp in Hcap.
+    unfold conn_transmit in H. cbv zeta in H.
     set (p0 := mk_pkt cap (k_pn k) cons []) in *.
     assert (HA0 : Acc salt n m p0 m) by reflexivity.
     match type of H with (match ?X with pair _ _ => _ end) = _ => destruct X as [[l c] p] eqn:EX end.
@@ -1222,9 +1223,9 @@ Proof.
   - unfold step in H. destruct (nx r) as [a r1]. destruct (nx r1) as [b r2]. injection H as _ <- _.
     exists (with_ms m (zN a mod n) (fun x => x)). apply INV03_upd; auto using keeps_reset.
   - unfold step in H. destruct (nx r) as [a r1]. destruct (nx r1) as [b r2]. destruct (nx r2) as [c r3]. destruct (nx r3) as [d r4].
-    destruct (conn_transmit salt k (zN a mod (n + 1)) (zN b mod 65536) (zN c mod 4) (zN d mod 4)) as [k1 fs] eqn:Et.
+    destruct (conn_transmit salt k (zN a mod (n + 1)) (zN b mod cap_bound) (zN c mod 4) (zN d mod 4)) as [k1 fs] eqn:Et.
     injection H as _ <- _.
-    assert (Hcap : zN b mod 65536 < 65536) by (apply N.mod_lt; lia).
+    assert (Hcap : zN b mod cap_bound < cap_bound) by (apply N.mod_lt; discriminate).
     destruct (conn_transmit_ok salt n _ _ _ _ _ _ _ _ HI Hcap Et) as [m' [_ HI']]. eauto.
   - unfold step in H. destruct (nx r) as [a r1]. destruct (nx r1) as [b r2]. injection H as _ <- _.
     destruct HI as (I1 & I2 & I3 & I4). exists m. unfold INV03, conn_ack. cbn. rewrite map_length.
